@@ -26,6 +26,17 @@ type Case struct {
 	Seed int64 `json:"seed"`
 	// Anchor names the acceptance-matrix entry this case transcribes ("" for generated cases).
 	Anchor string `json:"anchor,omitempty"`
+	// Second, when set, is a second workload that runs concurrently in the same process with its
+	// own driver context, the way amd/samples/concurrentworkload does (same architecture and mode;
+	// both workloads then use exactly the GPUs listed for them).
+	Second *Second `json:"second,omitempty"`
+}
+
+// Second is the second workload of a concurrent pair.
+type Second struct {
+	Workload string         `json:"workload"`
+	P        map[string]int `json:"p"`
+	GPUs     []int          `json:"gpus"`
 }
 
 // PassMarker is the last line a successful worker prints on stdout.
